@@ -126,6 +126,20 @@ def run(item):
         return g
 
     X, Gd = {}, {}
+    events = []       # what each public call returned: the point, the (sub)gradient, the value, and whether the gradient is a NEW leaf
+
+    def note(kind, func, x, g, v, fresh):
+        events.append((kind, x, g, v, 1 if fresh else 0, 1 if func is f else 0))
+
+    _sample0 = sample
+
+    def sample(func, x, role):
+        before = Point.counter
+        g = _sample0(func, x, role)
+        rec = [t for t in func.list_of_points if t[1] is g]
+        v = rec[-1][2] if rec else None
+        note("oracle", func, x, g, v, g.get_is_leaf() and g.counter is not None and g.counter >= before)
+        return g
     try:
         adopt_auto_samples()
         if vm == 1:
@@ -149,6 +163,7 @@ def run(item):
                     roles[x.counter] = ("stat", None, 0)
                 if v.get_is_leaf() and v.counter not in fr:
                     fr[v.counter] = x
+                note("stat", f, x, g, v, False)
             elif e == "X":
                 x, g, v = f.fixed_point()
                 if is_new_leaf(x):
@@ -188,7 +203,7 @@ def run(item):
         raise
     except Exception as ex:           # raised by a PEPit call: an observation, no constraints to judge
         out["exc"] = type(ex).__name__
-        out.update(NP=0, NE=0, roles=[], fr=[], cons=[], lmis=[], nsamples=0)
+        out.update(NP=0, NE=0, roles=[], fr=[], cons=[], lmis=[], nsamples=0, events=[])
         return out
     adopt_auto_samples()
     if partition is not None:
@@ -227,5 +242,8 @@ def run(item):
             continue
         lmis.append(dict(nm="lmi%d" % l, n=n, E=[sparse_ex(psd[i, j], NP, NE) for i in range(n) for j in range(n)]))
     out["cons"], out["lmis"] = cons, lmis
+    out["events"] = [dict(k=k, x=sparse_pt(x), g=sparse_pt(g), v=sparse_ex(v, NP, NE) if v is not None else dict(F=[], G=[], c=[0, 1]),
+                          hasv=1 if v is not None else 0, fresh=fresh, own=own)
+                     for (k, x, g, v, fresh, own) in events]
     out["nsamples"] = len(f.list_of_points) + (len(f.T.list_of_points) if cls_name == "LinearOperator" else 0)
     return out
